@@ -360,7 +360,21 @@ func splitTerm(ex *Exec, s *Term, sep byte, where string) *SliceVal {
 		return sv
 	}
 	if s.op == OpConcat {
-		unsupported("strings.Split on a concatenation whose parts may contain the separator at %s", where)
+		// distribute over an ITE part
+		for i, p := range s.args {
+			if p.op == OpIte {
+				mk := func(x *Term) *Term {
+					parts := make([]*Term, len(s.args))
+					copy(parts, s.args)
+					parts[i] = x
+					return ConcatSeg(parts...)
+				}
+				a := splitTerm(ex, mk(p.args[1]), sep, where)
+				b := splitTerm(ex, mk(p.args[2]), sep, where)
+				return iteValue(p.args[0], a, b).(*SliceVal)
+			}
+		}
+		unsupported("strings.Split on a concatenation whose parts may contain the separator at %s: %v", where, s.str(3))
 	}
 	// single free string: indexof model, exact for <= 2 separators
 	sepC := Str(seps)
@@ -500,7 +514,11 @@ func (ex *Exec) fmtValue(v Value, verb byte, g *Term, where string) *Term {
 	}
 	// Stringer / error first (as fmt does for %v and %s)
 	if verb != 'd' {
-		if m := ex.prog.LookupMethod(iv.Typ, nil, "String"); m != nil {
+		var m *ssa.Function
+		if sel := ex.prog.MethodSets.MethodSet(iv.Typ).Lookup(nil, "String"); sel != nil {
+			m = ex.prog.MethodValue(sel)
+		}
+		if m != nil {
 			sig := m.Signature
 			if sig.Params().Len() == 0 && sig.Results().Len() == 1 {
 				r := ex.callResolved(m, []Value{iv.V}, nil, g, where)
